@@ -88,6 +88,7 @@ type State struct {
 	done      bool
 	trace     []string
 	fresh     map[*Term]bool
+	hints     []*Term // index terms the program itself used: instantiation candidates for quantified path facts
 }
 
 type lockHeld struct {
@@ -102,6 +103,7 @@ func (st *State) clone() *State {
 	for k := range st.fresh {
 		n.fresh[k] = true
 	}
+	n.hints = append([]*Term(nil), st.hints...)
 	for k, v := range st.cells {
 		n.cells[k] = v
 	}
@@ -206,6 +208,9 @@ type Exec struct {
 	lspecs      []*lockSpec
 	curIns      ssa.Instruction
 	wildRegions map[string]bool
+	reach       map[string][][]*Term // return site -> path conditions reaching it
+	wfLen       int                  // pc[:wfLen] are representation facts of the parameters, pc[wfLen:reqLen] the requires clauses
+	reqLen      int
 }
 
 type dryRun struct {
@@ -220,7 +225,7 @@ type dryRun struct {
 }
 
 func NewExec(prog *Program, fn *ssa.Function, c *Contract) *Exec {
-	ex := &Exec{prog: prog, ts: NewTermStore(), root: fn, contract: c, obls: map[string]*Obligation{}, regionSorts: map[string]*Sort{}, arrFieldIdx: map[string]int{}, immutableGlobals: prog.Immutable, maxPaths: 20000, assumptions: map[string]bool{}, typeTags: map[string]int64{}, axiomSeen: map[int]bool{}, loopInfo: map[*ssa.Function]*loopAnalysis{}, siteSeq: map[string]int{}, sharedCells: map[*Cell]bool{}, concTypes: map[string]types.Type{}, ifaceTypes: map[string]*types.Interface{}, wildRegions: map[string]bool{}}
+	ex := &Exec{prog: prog, ts: NewTermStore(), root: fn, contract: c, obls: map[string]*Obligation{}, regionSorts: map[string]*Sort{}, arrFieldIdx: map[string]int{}, immutableGlobals: prog.Immutable, maxPaths: 20000, assumptions: map[string]bool{}, typeTags: map[string]int64{}, axiomSeen: map[int]bool{}, loopInfo: map[*ssa.Function]*loopAnalysis{}, siteSeq: map[string]int{}, sharedCells: map[*Cell]bool{}, concTypes: map[string]types.Type{}, ifaceTypes: map[string]*types.Interface{}, wildRegions: map[string]bool{}, reach: map[string][][]*Term{}}
 	ex.bv = c != nil && c.Mode == "bv"
 	if c != nil {
 		if ab, ok := c.Options["allocbound"]; ok {
@@ -305,7 +310,9 @@ func (ex *Exec) oblige(kind string, site string, pos token.Pos, text string, con
 		ex.oblList = append(ex.oblList, ob)
 	}
 	if !cond.IsTrue() {
-		ob.Paths = append(ob.Paths, ObPath{PC: append([]*Term(nil), ex.st.pc...), Cond: cond, Trace: append([]string(nil), ex.st.trace...)})
+		pc := append([]*Term(nil), ex.st.pc...)
+		pc = append(pc, ex.instantiateHints(pc)...)
+		ob.Paths = append(ob.Paths, ObPath{PC: pc, Cond: cond, Trace: append([]string(nil), ex.st.trace...)})
 	} else if len(ob.Paths) == 0 {
 		// keep the obligation visible even when it folded to true on every path
 	}
@@ -431,12 +438,14 @@ func (ex *Exec) Run() (err error) {
 		}
 	}
 	st.frames = []*Frame{fr}
+	ex.wfLen = len(st.pc)
 	if ex.contract != nil {
 		env := ex.envFor(fr, nil)
 		for _, rq := range ex.contract.Requires {
 			ex.assume(ex.evalBool(rq.E, env))
 		}
 	}
+	ex.reqLen = len(st.pc)
 	ex.applyTypeInvariantsAtEntry(fr)
 	ex.entryPC = append([]*Term(nil), st.pc...)
 	fr.old = st.snapshot()
@@ -967,4 +976,59 @@ func (ex *Exec) finalize() {
 		}
 	}
 	sort.SliceStable(ex.oblList, func(i, j int) bool { return ex.oblList[i].Name < ex.oblList[j].Name })
+}
+
+
+func (ex *Exec) addHint(t *Term) {
+	if t == nil || t.IsLit() || t.bound {
+		return
+	}
+	for _, h := range ex.st.hints {
+		if h == t {
+			return
+		}
+	}
+	ex.st.hints = append(ex.st.hints, t)
+	if len(ex.st.hints) > 10 {
+		ex.st.hints = ex.st.hints[len(ex.st.hints)-10:]
+	}
+}
+
+// instantiateHints: E-matching on arithmetic index terms is unreliable in the solvers, so every single-variable
+// universal fact of the path is instantiated here at the index terms the program used (sound: instances of assumed facts).
+func (ex *Exec) instantiateHints(pc []*Term) []*Term {
+	if len(ex.st.hints) == 0 {
+		return nil
+	}
+	var out []*Term
+	seen := map[*Term]bool{}
+	var visit func(t *Term)
+	visit = func(t *Term) {
+		if t.Op == "and" {
+			for _, a := range t.Args {
+				visit(a)
+			}
+			return
+		}
+		if t.Op != "forall" || len(t.Binds) != 1 || seen[t] {
+			return
+		}
+		seen[t] = true
+		b := t.Binds[0]
+		for _, h := range ex.st.hints {
+			if h.S != b.S {
+				continue
+			}
+			inst := ex.ts.Subst(t.Args[0], map[*Term]*Term{b: h})
+			if !inst.bound {
+				out = append(out, inst)
+			}
+		}
+	}
+	n := 0
+	for i := len(pc) - 1; i >= 0 && n < 400; i-- {
+		visit(pc[i])
+		n++
+	}
+	return out
 }
